@@ -246,6 +246,14 @@ def universe():
     add("#00f", ("color", Fraction(0), Fraction(0), Fraction(255), Fraction(1)))
     add("transparent", ("color", Fraction(0), Fraction(0), Fraction(0), Fraction(0)))
     add("rgba(0, 0, 0, 0)", ("color", Fraction(0), Fraction(0), Fraction(0), Fraction(0)))
+    # round 3 (seeded C09-r3m1): the same rgb colour reached through hsl() with DIFFERENT hsl components
+    grey = ("color", Fraction(128), Fraction(128), Fraction(128), Fraction(1))
+    add("#808080", grey)
+    add("hsl(0, 0%, 50.2%)", grey)
+    add("hsl(120, 0%, 50.2%)", grey)
+    add("hsl(0, 100%, 100%)", ("color", Fraction(255), Fraction(255), Fraction(255), Fraction(1)))
+    add("hsl(200, 30%, 100%)", ("color", Fraction(255), Fraction(255), Fraction(255), Fraction(1)))
+    add("white", ("color", Fraction(255), Fraction(255), Fraction(255), Fraction(1)))
     # lists differing in separator / brackets
     add("(1 2)", ("list", [one, two], "space", False))
     add("(1, 2)", ("list", [one, two], "comma", False))
